@@ -4,3 +4,4 @@ import BalmProofs.Props.C20
 #print axioms Balm.KeyBits.key_injective
 #print axioms Balm.Impl.judgeStrict_sound
 #print axioms Balm.Depth.updateDepth_local
+#print axioms Balm.Impl.isSubgraph_eq_spec
